@@ -23,6 +23,7 @@ CHECKS = {
     "C13": ("harness.checks.sys_props", "C13"),
     "C14": ("harness.checks.sys_props", "C14"),
     "C15": ("harness.checks.sys_props", "C15"),
+    "C16": ("harness.checks.c16", "C16"),
     "C17": ("harness.checks.c17", "C17"),
     "C18": ("harness.checks.c18", "C18"),
     "C19": ("harness.checks.c19", "C19"),
